@@ -128,6 +128,7 @@ type FuncGen struct {
 	resultNames []string
 	sentGhost   bool
 	copyOut     *[]func()
+	closureBindings map[string]sval
 	retStates   int
 }
 
@@ -610,6 +611,11 @@ func (env *Env) GenFunc(fn *ssa.Function, key string, c *Contract, spec *SpecFil
 		in: map[int]*State{}, out: map[int]*State{}, reach: map[int]string{}, edges: map[[2]int]string{},
 		loops: map[int]*loopInfo{}, oblN: map[string]int{}, assumptions: map[string]bool{}, interior: map[string]bool{}, nilChecked: map[string]*ssa.BasicBlock{}}
 	res = &FuncResult{Key: key, Fn: fn}
+	for _, sf := range env.Specs {
+		for name := range sf.GhostVars {
+			g.ghostVar(name)
+		}
+	}
 	if c != nil {
 		g.props = c.Props
 		if c.Arith == "bv" {
